@@ -5,3 +5,4 @@ import NutsModel.Thm.C03
 import NutsModel.Thm.Sched
 import NutsModel.Thm.C17
 import NutsModel.Thm.C01Refine
+import NutsModel.Thm.C16
